@@ -347,13 +347,13 @@ func escapesWithout(a ssa.Instruction, must ssa.Instruction, hdr *ssa.BasicBlock
 
 // threadSafeTypes: field types accepted without a lock.
 var threadSafeTypes = map[string]string{
-	"*github.com/hashicorp/golang-lru.Cache":         "internally locked",
-	"*github.com/gogf/gf/container/gmap.ListMap":     "created with safe=true (checked)",
-	"sync.Map":                                       "concurrent map",
-	"sync.Mutex":                                     "the lock itself",
-	"middleware/db.Database":                         "LevelDB handle (goroutine-safe)",
-	"*service.simpleContainer":                       "container whose own fields are checked by this rule",
-	"*time.Ticker":                                   "read-only channel holder",
+	"*github.com/hashicorp/golang-lru.Cache":     "internally locked",
+	"*github.com/gogf/gf/container/gmap.ListMap": "created with safe=true (checked)",
+	"sync.Map":                 "concurrent map",
+	"sync.Mutex":               "the lock itself",
+	"middleware/db.Database":   "LevelDB handle (goroutine-safe)",
+	"*service.simpleContainer": "container whose own fields are checked by this rule",
+	"*time.Ticker":             "read-only channel holder",
 }
 
 // guardedFields: field → mutex field that must be held at every access.
